@@ -36,6 +36,24 @@ extern "C" void a16_run()
   if (n)
     memcpy(dev, bytes, n);
   simio_reset();
+  // a process that has already read (and mostly rejected) other files; it has 8 descriptors
+  simio_set_handle_limit(8);
+  for (int i = 0; i < a16_pre_reads(); i++) {
+    long cut = a16_pre_cut(i);
+    unsigned char *part = new unsigned char[cut ? cut : 1];
+    if (cut)
+      memcpy(part, bytes, (size_t)cut);
+    simio_set_file("/sim/doc.xml", part, (size_t)cut);
+    try {
+      rkcommon::xml::XMLDoc d = rkcommon::xml::readXML("/sim/doc.xml");
+      a16_pre_outcome(0);
+    } catch (const std::runtime_error &) {
+      a16_pre_outcome(1);
+    } catch (...) {
+      a16_pre_outcome(2);
+    }
+    delete[] part;
+  }
   simio_set_file("/sim/doc.xml", dev, n);
   long arg = -1;
   int f = a16_fault(&arg);
